@@ -91,7 +91,7 @@ structure TestCase.WF (w : Nat) : Prop where
 abbrev ROK (w : Nat) (r : CRow) : Prop := RowOK w (entryIsInput tc) r
 
 theorem rowOK_set (w : Nat) (top : CRow) (i : Nat) (v : Int64) (h : ROK tc w top) :
-    ROK tc w { top with entries := top.entries.set i (.num v) } := by
+    ROK tc w { top with entries := top.entries.set i (.num v), xcols := i :: top.xcols } := by
   refine ⟨by simpa using h.1, ?_⟩
   intro j hj
   simp only at hj
@@ -125,12 +125,12 @@ theorem popRow_ok (w : Nat) (hw : tc.WF w) : ∀ (k : Nat) (top : CRow) (rest : 
         | entry col sig =>
           have := hw.expCol _ hi col sig rfl
           simp [ht.1]; omega
-      have hpop : popRow tc (top :: rest) = .ok (⟨clockBlank tc 0 top.entries, top.line, false⟩,
-          ⟨clockBlank tc 1 top.entries, top.line, false⟩ :: ⟨clockLow tc 0 top.entries, top.line, top.upd⟩ :: rest) := by
+      have hpop : popRow tc (top :: rest) = .ok (⟨clockBlank tc 0 top.entries, top.line, false, top.xcols⟩,
+          ⟨clockBlank tc 1 top.entries, top.line, false, top.xcols⟩ :: ⟨clockLow tc 0 top.entries, top.line, top.upd, top.xcols⟩ :: rest) := by
         unfold popRow
         simp only [List.head?_cons, Option.map_some, Option.getD_some, expandX, hx, expandC, hc', hb]
         rfl
-      have hblank : ∀ v, ROK tc w ⟨clockBlank tc v top.entries, top.line, false⟩ ∧
+      have hblank : ∀ v, ROK tc w ⟨clockBlank tc v top.entries, top.line, false, top.xcols⟩ ∧
           lastInputX tc (clockBlank tc v top.entries) = none ∧ hasInputCFrom tc (clockBlank tc v top.entries) 0 = false := by
         intro v
         refine ⟨⟨by simp [clockBlank, mapIdxFrom_length, ht.1], ?_⟩, ?_, ?_⟩
@@ -147,7 +147,7 @@ theorem popRow_ok (w : Nat) (hw : tc.WF w) : ∀ (k : Nat) (top : CRow) (rest : 
               · subst hj; exact ht.2 j he
         · exact clock_no_X tc _ (blank_props tc v).2 top.entries 0 hx
         · exact clock_no_C tc _ (blank_props tc v).1 top.entries 0
-      have hlow : ROK tc w ⟨clockLow tc 0 top.entries, top.line, top.upd⟩ := by
+      have hlow : ROK tc w ⟨clockLow tc 0 top.entries, top.line, top.upd, top.xcols⟩ := by
         refine ⟨by simp [clockLow, mapIdxFrom_length, ht.1], ?_⟩
         intro j hj
         simp only [clockLow, mapIdxFrom_getElem?] at hj
@@ -243,8 +243,8 @@ theorem inputFor_ok (w : Nat) (hw : tc.WF w) (es : List REntry) (ch : List Bool)
 
 theorem expectedFor_ok (w : Nat) (hw : tc.WF w) (es : List REntry) (hes : es.length = w)
     (hok : ∀ (j : Nat), es[j]? = some REntry.c → entryIsInput tc j = true)
-    (hc : hasInputCFrom tc es 0 = false) (i : EIdx) (hi : i ∈ tc.expIdx) :
-    ∃ r, expectedFor tc es i = .ok r := by
+    (hc : hasInputCFrom tc es 0 = false) (xcols : List Nat) (i : EIdx) (hi : i ∈ tc.expIdx) :
+    ∃ r, expectedFor tc es xcols i = .ok r := by
   obtain ⟨s, hs⟩ := hw.expSig i hi
   cases i with
   | dflt sig =>
@@ -254,6 +254,8 @@ theorem expectedFor_ok (w : Nat) (hw : tc.WF w) (es : List REntry) (hes : es.len
     simp only [EIdx.sig] at hs
     have hcol := hw.expCol _ hi col sig rfl
     simp only [expectedFor, hs]
+    split
+    · exact ⟨_, rfl⟩
     have hlt : col < es.length := by omega
     rw [List.getElem?_eq_getElem hlt]
     cases he : es[col] with
@@ -307,9 +309,9 @@ theorem getRowTail_inv (w : Nat) (hw : tc.WF w) (s : RowIt) (h : RInv tc w s) (h
     obtain ⟨ins, hins⟩ := hin
     rw [hins]
     simp only
-    have hex : ∃ exps, genExpected tc top'.entries = .ok exps := by
+    have hex : ∃ exps, genExpected tc top'.entries top'.xcols = .ok exps := by
       unfold genExpected
-      exact mapRes_all_ok _ _ (fun i hi => expectedFor_ok tc w hw _ ht'.1 ht'.2 hcc i hi)
+      exact mapRes_all_ok _ _ (fun i hi => expectedFor_ok tc w hw _ ht'.1 ht'.2 hcc _ i hi)
     obtain ⟨exps, hexps⟩ := hex
     rw [hexps]
     simp only [GPost]
